@@ -111,6 +111,11 @@ def gating(ctx):
 def run(ctx):
     file_sites(ctx)
     gating(ctx)
+    # "exactly the files written in THIS run": the registration lists are per-run objects
+    from effects.history import fresh_per_run_lists, history_items
+    fresh_per_run_lists(ctx, "C15")
+    history_items(ctx, "C15", "the lists behind --cfiles/--ffiles hold only files of this run",
+                  select=lambda root, v: root.startswith("main."))
     # deductive part: Wrapc.write_header lists exactly what it writes, in the C/Fortran directory (same unit as C05/U2)
     u = copy.copy(util_header.write_header)
     u.prop = "C15"
